@@ -318,6 +318,67 @@ def work(job):
     return dict(st), viols[:30], sorted(classes), sample
 
 
+def driver_part(chk, tier):
+    """the same expectations observed in the .sol written by the real driver (vdriver): primal values,
+    dual values, .sstatus suffixes of variables and constraints"""
+    import vdriverlib, shutil, vbuild
+    from concurrent.futures import ThreadPoolExecutor
+    binary = vdriverlib.build('plain')
+    work = os.path.join(vbuild.BUILD, 'work', 'C04'); shutil.rmtree(work, ignore_errors=True)
+    jobs = []
+    ms = models(tier)
+    for i, (name, m, lin_idx) in enumerate(ms[::(7 if tier == 'quick' else 2)]):
+        for cfgname, types in CONFIGS:
+            jobs.append((len(jobs), name, m, lin_idx, cfgname, acc_for(types)))
+    def one(job):
+        idx, name, m, lin_idx, cfgname, acc = job
+        wd = os.path.join(work, 'r%05d' % idx)
+        run = vdriverlib.run(binary, wd, nl_text=m.nl(), script={'acc': acc, 'code': 0, 'ismip': 0, 'x': 'ramp', 'y': 'ramp',
+                                                                  'obj': 'auto', 'basis': 'ramp'},
+                             env_opts={'vdriver_options': 'basis=3 sol:chk:mode=0'})
+        shutil.rmtree(wd, ignore_errors=True)
+        probs = []
+        d = run['dump']
+        if run['rc'] != 0 or run['sol'] is None or not d:
+            return job, ['driver run failed rc=%s %s' % (run['rc'], run['err'][-200:])], run
+        try: sol = vdriverlib.parse_sol(run['sol'])
+        except Exception as e: return job, ['.sol not parsable: %s' % e], run
+        norig = len(m.vars); nalg = len(m.acons)
+        if sol['nvars'] != norig or sol['nprimals'] != norig: probs.append('.sol primal count %s/%s != %d' % (sol['nvars'], sol['nprimals'], norig))
+        elif sol['primals'] != [100.0 + j for j in range(norig)]: probs.append('.sol primal values are not the solver values of the original variables')
+        if sol['ncons'] != nalg: probs.append('.sol constraint count %d != %d' % (sol['ncons'], nalg))
+        mt = match_rows(m, lin_idx, {'cons': d['cons'], 'vars': d['vars']})
+        if mt is None: return job, probs + ['__unmatched__'], run
+        nv = len(d['vars'])
+        vst = [1 + (j % 4) for j in range(nv)]
+        if sol['nduals'] == nalg:
+            for i, t in mt.items():
+                if sol['duals'][i] != 1000 * CG_LINEAR + 1 + 10 * t['row']: probs.append('.sol dual of linear constraint is not the dual of its row'); break
+        elif sol['nduals'] != 0: probs.append('.sol dual count %d' % sol['nduals'])
+        sv = [sf for sf in sol['suffixes'] if sf['name'] == 'sstatus' and (sf['kind'] & 3) == 0]
+        sc = [sf for sf in sol['suffixes'] if sf['name'] == 'sstatus' and (sf['kind'] & 3) == 1]
+        if sv:
+            got = [sv[0]['values'].get(j, 0) for j in range(norig)]
+            if got != [float(v) for v in vst[:norig]]: probs.append('.sol variable .sstatus is not the solver basis of the original variables')
+        else: probs.append('__no_sstatus__')
+        if sc:
+            for i, t in mt.items():
+                exp = 1 + ((t['row'] + 1) % 4) if t['slack'] is None else rev_basis(vst[t['slack']])
+                if sc[0]['values'].get(i, 0) != exp: probs.append('.sol constraint .sstatus is not the (slack-mapped) status of its row'); break
+        return job, probs, run
+    n = 0; judged = 0
+    with ThreadPoolExecutor(max_workers=vcheck.NCPU) as ex:
+        for job, probs, run in ex.map(one, jobs):
+            n += 1
+            real = [p for p in probs if not p.startswith('__')]
+            if '__unmatched__' not in probs: judged += 1
+            for pr in real:
+                chk.violation('C04 driver: %s cfg=%s' % (pr, job[4]), {'model': job[2].describe(), 'sol': (run['sol'] or '')[-600:]}, None)
+    chk.set('driver_runs', n); chk.set('driver_runs_judged', judged)
+    shutil.rmtree(work, ignore_errors=True)
+    if judged < n / 2: chk.broken.append('driver part: only %d of %d runs judged' % (judged, n))
+
+
 def build():
     return flatlib.build()
 
@@ -335,6 +396,7 @@ def main(tier, seed):
             tot.update(st); classes.update(cl)
             if sample: chk.sample(sample)
             for sig, det, rp in viols: chk.violation(sig, det, rp)
+    driver_part(chk, tier)
     for k, v in tot.items(): chk.set(k, v)
     chk.set('evaluations', tot['transfers'])
     chk.set('states', tot['instances'])
